@@ -338,6 +338,23 @@ def malformed_cases():
     for a in ("Y", "Z", "x"):
         cases.append((f"table with a missing (NaN) entry in {a}", table_nan(a)))
 
+    def table_inf(attr):
+        def f():
+            import pymrio
+            io = scen.build_table(tb)
+            df = getattr(io, attr).copy().astype(float)
+            df.iloc[1, 0] = float("inf")
+            setattr(io, attr, df)
+            if attr == "Z":
+                io.A = pymrio.calc_A(io.Z, io.x)          # coefficients consistent with the flows as given
+            sim = Simulation(ARIOPsiModel(io), n_temporal_units_to_sim=5)
+            quiet_loop(sim)
+            if sim.has_crashed:
+                raise RuntimeError("reported by the crashed flag")
+        return f
+    for a in ("Y", "Z"):
+        cases.append((f"table with an infinite entry in {a}", table_inf(a)))
+
     def inconsistent_A():
         io = scen.build_table(tb)
         io.A = io.A * 1.5
